@@ -161,8 +161,31 @@ fn names(mask: u8) -> Vec<&'static str> {
     ["T", "U", "X", "'a", "'b"].iter().enumerate().filter(|(i, _)| mask >> i & 1 == 1).map(|(_, n)| *n).collect()
 }
 
+/// Wraps every path-typed generic argument and the type itself in `Type::Group` (what a
+/// `macro_rules!` `$t:ty` fragment produces); usage must be unchanged.
+fn grouped(ty: &syn::Type) -> syn::Type {
+    struct V;
+    impl syn::visit_mut::VisitMut for V {
+        fn visit_type_mut(&mut self, t: &mut syn::Type) {
+            syn::visit_mut::visit_type_mut(self, t);
+            if matches!(t, syn::Type::Path(_) | syn::Type::Reference(_) | syn::Type::Tuple(_)) {
+                let inner = t.clone();
+                *t = syn::Type::Group(syn::TypeGroup { group_token: Default::default(), elem: Box::new(inner) });
+            }
+        }
+    }
+    let mut t = ty.clone();
+    syn::visit_mut::VisitMut::visit_type_mut(&mut V, &mut t);
+    t
+}
+
 pub fn check_type(gt: &G, t: &mut Tally) {
-    let ty: syn::Type = match syn::parse_str(&gt.text) {
+    check_type_inner(gt, false, t);
+    check_type_inner(gt, true, t);
+}
+
+fn check_type_inner(gt: &G, in_groups: bool, t: &mut Tally) {
+    let ty: syn::Type = match syn::parse_str(&gt.text).map(|t: syn::Type| if in_groups { grouped(&t) } else { t }) {
         Ok(t) => t,
         Err(e) => {
             t.hit("generator_unparseable");
@@ -170,9 +193,10 @@ pub fn check_type(gt: &G, t: &mut Tally) {
             return;
         }
     };
-    if gt.bi != 0 || gt.decl != 0 {
+    if (gt.bi != 0 || gt.decl != 0) && !in_groups {
         t.nontrivial += 1;
     }
+    let gt = &G { text: if in_groups { format!("{} (every path / reference / tuple node inside an invisible group)", gt.text) } else { gt.text.clone() }, bi: gt.bi, decl: gt.decl };
     for (purpose, expect, pname) in [(Purpose::BoundImpl, gt.bi, "BoundImpl"), (Purpose::Declare, gt.decl, "Declare")] {
         for q in 0..8u8 {
             t.evaluations += 1;
